@@ -2340,7 +2340,7 @@ def verify_hyperparameters(lattice_sizes,
   for size in lattice_sizes:
     if size < 2:
       raise ValueError("All lattice sizes must be at least 2. Given: %s" %
-                       lattice_sizes)
+                       (lattice_sizes,))
 
   # It also raises errors if monotonicities specified incorrectly.
   monotonicities = utils.canonicalize_monotonicities(
